@@ -47,6 +47,12 @@ func main() {
 	switch os.Args[1] {
 	case "glob":
 		modeGlob(os.Args[2:])
+	case "parse":
+		modeParse(os.Args[2:])
+	case "encode":
+		modeEncode(os.Args[2:])
+	case "ctor":
+		modeCtor(os.Args[2:])
 	default:
 		fmt.Fprintln(os.Stderr, "unknown mode", os.Args[1])
 		os.Exit(2)
